@@ -106,7 +106,7 @@ static sigjmp_buf crash_jmp;
 static volatile int in_fiber_run;
 
 /* outcome string of the current execution */
-static char outcome[256]; static int outcome_len;
+static char outcome[2048]; static int outcome_len;
 
 /* ------------------------------------------------------------------ */
 /* small utilities                                                    */
@@ -1110,7 +1110,7 @@ int main (int argc, char **argv) {
 		}
 		if (r == 0 && selftest_det && det_checked < 3 && (n_execs % 7) == 1) {
 			/* determinism self-check: re-run the schedule just completed and compare */
-			int d1 = depth; char o1[256]; snprintf (o1, sizeof o1, "%s", outcome);
+			int d1 = depth; static char o1[2048]; snprintf (o1, sizeof o1, "%s", outcome);
 			static int save[MAXD]; memcpy (save, choice, d1 * sizeof (int));
 			int spl = prefix_len; int snh = opt_nohash; opt_nohash = 1; prefix_len = d1;
 			unsigned long e = n_execs, s = n_steps, sn = n_steps_new, ce = n_complete_execs;
